@@ -317,6 +317,9 @@ def main(argv=None):
         for mode in (("exact",), ("tau_fixed", 0.3), ("tau_adaptive", 0.3)):
             cj.append(("SIR N=%d %s" % (N, mode), sir_def(), [0.5 / N * 4, 0.3], [N - 1, 1, 0], 3.0, mode, seeds))
             cj.append(("chain N=%d %s" % (N, mode), chain_def(3), [0.9, 0.4], [N, 0, 0], 3.0, mode, seeds))
+    # long free runs: 800 events per run (anything the run loop keeps in fixed-size blocks is crossed)
+    cj.append(("chain N=400 long ('exact',)", chain_def(3), [0.9, 0.4], [400, 0, 0], 60.0, ("exact",), seeds[:2]))
+    cj.append(("SIR N=300 long ('exact',)", sir_def(), [0.5 / 300 * 4, 0.3], [295, 5, 0], 200.0, ("exact",), seeds[:2]))
     cres = pool.pmap(conformance_job, cj, chunksize=1)
     for r, j in zip(cres, cj):
         for v in r["violations"]:
